@@ -11,6 +11,8 @@ def run(rep):
     compilerp.provenance_obligations(rep)
     templates.discipline_obligations(rep)
     compilerp.fresh_state_obligations(rep)
+    # debug comments share the output file with the code (yldpc -d): they must stay comments
+    compilerp.debug_noninterference_obligations(rep)
     enginep.engine_deductive(rep, ['engine.YP.query'], heap_lemmas=False)
     q = rep.tier == 'quick'
     fw.standin(rep, 's_c12.py', ['run', rep.seed, 250 if q else 4000],
